@@ -41,9 +41,16 @@ Lemma batch_events :
 Proof. vm_compute. reflexivity. Qed.
 (* the hypothesis of the children-first theorem holds on it: every key is simple *)
 Definition simple_keyb (k : key) : bool :=
-  match k with KI z => (0 <=? z) && (z <=? 9) | KS [] => true | KS (c :: _) => N.ltb 57 c end.
+  match k with KI _ => true | KS [] => true | KS (c :: _) => negb (N.eqb c 45) && (N.ltb c 48 || N.ltb 57 c) end.
 Lemma simple_keyb_ok : forall k, simple_keyb k = true -> simple_key k.
-Proof. destruct k as [[|c s]|z]; simpl; intros; auto. apply N.ltb_lt; auto. lia. Qed.
+Proof.
+  destruct k as [[|c s]|z]; simpl; intros; auto. apply andb_prop in H. destruct H as [A B].
+  apply negb_true_iff in A. apply N.eqb_neq in A. split; auto.
+  apply orb_prop in B. destruct B as [B|B]; apply N.ltb_lt in B; auto.
+Qed.
+(* why string keys that look like numbers are excluded: two ints compare as ints, anything else as texts, and that is not an order *)
+Lemma key_order_cycle : kw_ltb (KI 9) (KI 10) = true /\ kw_ltb (KI 10) (KS [53%N]) = true /\ kw_ltb (KS [53%N]) (KI 9) = true.
+Proof. vm_compute. auto. Qed.
 Lemma simple_b_ok : forall l : list node, forallb (fun n => forallb simple_keyb (npth n)) l = true ->
   Forall (fun n => simple_path (npth n)) l.
 Proof.
